@@ -24,6 +24,9 @@ CLAIMS = {
  "C14": "Proved as invariants over every sequence of hand-level events: counters = accepted wager actions / calls / checks, raises ≤ actions, fold flag ⇔ fold accepted, did ⇒ chance and at most one 3-bet flag (under the monitored StableEvent contract; the event symbol is a regenerated fact), cleared between hands. Statistics compared field by field with the engine after every delivered state; the same predicates are evaluated at every settlement.",
  "C15": "Proved: deadline = delivery time + action time exactly when a betting round asks an unmoved player for a wager action; cleared at RoundClosed and between hands; unchanged otherwise; an extension adds exactly the requested seconds, any number of times. Partial: that the delivery time is the wall-clock time of the request is observed with a bracket on every such state.",
  "C12": "Proved: the published hand blinds are the BlindState at the open; UpdateBlind / settlement / continue do not touch them; break ⇒ no open, continue pauses, create-on-break starts paused; the single read in startGame is a regenerated fact. Options received by the backend are compared with the blinds at open on every hand of every run.",
+ "C18": "Proved under the monitored pokerface contract PF.wf: every raise / bet the bot's dice can choose is allowed, non-empty, accepted by the engine's guards, within the stack and (all-in or) at least the minimum; every other move is an allowed kind; ready / pass / the posted payment otherwise; non-empty move set whenever asked; silent when not at the table, not seated-in, no hand, stale or repeated view, table not playing, not dealt in. Real bots on real tables every run: each move must be in the modelled set and accepted, each all-bot hand must settle.",
+ "C19": "Proved for every hand state: auto-play yields ready, check, fold, a payment of exactly the posted ante / blind, or nothing — never call / bet / raise / all-in — with the precedence ready > check > fold > pay; pass at once; suspended: at once; otherwise the time bank is armed with the action time and nothing happens before. Order of the if-chain is a regenerated fact; real playerRunner compared on thousands of real states incl. timed cases.",
+ "C20": "Proved: for every hand state and any table status a non-system observer is shown no deck, no burned cards, no hole cards / strength while the hand runs and none of folded players after it closed (filter condition is a regenerated fact; AsObserver is a monitored contract); in the heap model of the adapter's marshal/unmarshal copy a write through one actor's copy reaches nobody else. Partial: aliasing itself is checked at run time (pointers, byte equality, tamper test) on every case.",
  "C17": "Forwarding discipline decided over the whole regenerated manager table (every method: lookup, not-found error, same-named engine method, arguments in order, returns its result; exactly Close/Release delete, after the call); isolation / forwarding / not-found / forgotten-after-close proved for the registry model over an arbitrary engine.",
 }
 
